@@ -1,0 +1,39 @@
+//go:build verif
+
+// Package verifhook holds verification-only instrumentation (enabled by the 'verif' build tag).
+package verifhook
+
+import (
+	"hash/fnv"
+	"math/rand"
+	"os"
+	"strconv"
+)
+
+// Permute deterministically reorders s according to the VERIF_ORDER environment variable and
+// the name of the enumeration site. It stands in for the orders Go's map iteration,
+// packages.Load and file globbing are free to produce.
+//
+//	unset / empty: identity        "reverse": reversed        <n>: Fisher-Yates keyed by n and site
+func Permute[T any](site string, s []T) []T {
+	order := os.Getenv("VERIF_ORDER")
+	if order == "" || len(s) < 2 {
+		return s
+	}
+	out := append([]T(nil), s...)
+	if order == "reverse" {
+		for i, j := 0, len(out)-1; i < j; i, j = i+1, j-1 {
+			out[i], out[j] = out[j], out[i]
+		}
+		return out
+	}
+	n, err := strconv.ParseInt(order, 10, 64)
+	if err != nil {
+		return s
+	}
+	h := fnv.New64a()
+	h.Write([]byte(site))
+	r := rand.New(rand.NewSource(n ^ int64(h.Sum64())))
+	r.Shuffle(len(out), func(i, j int) { out[i], out[j] = out[j], out[i] })
+	return out
+}
